@@ -504,30 +504,75 @@ WIDTH = {
     'unclosed strings': ('sheet', lambda n: '"\n' * n),
     'backslashes': ('sheet', lambda n: '\\' * n),
 }
+# width INSIDE single tokens: the size is the length of a run of one character (or a short unit) inside one token, closed, cut by
+# a line feed, or cut by the end of input; as a sheet, inside a declaration value and as a style attribute
+TOKEN_WIDTH = {}
+_UNITS = {'a': 'a', 'star': '*', 'backslash': '\\', 'escaped quote': '\\"', 'hex escape': '\\61 ', 'short hex escape': '\\a', 'other quote': "'", 'space': ' ', 'slash': '/',
+          'escaped line feed': '\\\n', 'non-ASCII': '\xe9', 'digit': '1', 'star slash star': '*/*', 'star a': '*a'}
+for _uname, _u in _UNITS.items():
+    for _tname, _open, _ends in [
+        ('double-quoted string', '"', {'closed': '"', 'cut by end of input': '', 'cut by a line feed': '\n', 'cut by a line feed, more text': '\n;a{b:c}'}),
+        ('single-quoted string', "'", {'closed': "'", 'cut by end of input': '', 'cut by a line feed': '\n'}),
+        ('url(', 'url(', {'closed': ')', 'cut by end of input': '', 'cut by a line feed': '\n'}),
+        ('url("', 'url("', {'closed': '")', 'cut by end of input': '', 'cut by a line feed': '\n'}),
+        ('comment', '/*', {'closed': '*/', 'cut by end of input': '', 'followed by text': ' x', 'followed by a lone star and slash apart': '* /'}),
+    ]:
+        if _tname.startswith('single') and _u == "'":
+            continue
+        if _tname == 'double-quoted string' and _u == '\\"':
+            pass
+        for _ename, _end in _ends.items():
+            for _pos, _mode, _pre, _post in [('sheet level', 'sheet', '', ''), ('declaration value', 'sheet', 'a{b:', '}'), ('style attribute value', 'style', 'b:', '')]:
+                if _pos != 'sheet level' and _ename not in ('closed', 'cut by end of input', 'cut by a line feed'):
+                    continue
+                TOKEN_WIDTH[f'{_tname} of {_uname} x n, {_ename}, {_pos}'] = (_mode, (lambda n, a=_pre + _open, u=_u, z=_end + _post: a + u * n + z))
+for _uname, _u in [('a', 'a'), ('digit', '1'), ('hyphen', '-'), ('underscore', '_'), ('hex escape', '\\61 '), ('escaped brace', '\\7d '), ('non-ASCII', '\xe9'), ('backslash', '\\'), ('escaped char', '\\{')]:
+    for _tname, _head, _tail in [('identifier', 'a', ''), ('at-keyword', '@x', ' y;'), ('hash', '#a', ''), ('function name', 'f', '(1)'), ('dimension unit', '1p', ''), ('class selector', '.c', ''),
+                                 ('-ident', '-', 'a')]:
+        for _pos, _mode, _pre, _post in [('selector', 'sheet', '', '{b:c}'), ('declaration value', 'sheet', 'a{b:', '}'), ('property name', 'style', '', ':c'), ('style attribute value', 'style', 'b:', '')]:
+            if _tname in ('at-keyword', 'class selector') and _pos != 'selector':
+                continue
+            if _tname == 'dimension unit' and _pos in ('selector', 'property name'):
+                continue
+            TOKEN_WIDTH[f'{_tname} with {_uname} x n, {_pos}'] = (_mode, (lambda n, a=_pre + _head, u=_u, z=_tail + _post: a + u * n + z))
+for _tname, _fmt in [('integer', '{d}'), ('signed integer', '+{d}'), ('fraction digits', '0.{d}'), ('integer and fraction', '{d}.5'), ('both long', '{d}.{d}'), ('dimension', '{d}px'),
+                     ('dimension with fraction', '{d}.5em'), ('percentage', '{d}%'), ('percentage with fraction', '{d}.5%'), ('leading zeros', '{z}1'), ('trailing zeros', '1.{z}'),
+                     ('zero dimension', '{z}px'), ('exponent look-alike', '1e{d}'), ('unicode-range', 'U+{d}'), ('hash digits', '#{d}'), ('rgb argument', 'rgb({d},{d},{d})'),
+                     ('hsl argument', 'hsl({d},{d}%,{d}%)'), ('rgba alpha', 'rgba(1,2,3,0.{d})'), ('function argument', 'f({d})'), ('calc operand', 'calc({d} + {d}.5px)'),
+                     ('nth argument', None)]:
+    if _fmt is None:
+        TOKEN_WIDTH[f'number run: {_tname}, selector'] = ('sheet', (lambda n: 'a:nth-child(' + '1' * n + 'n+' + '1' * n + '){b:c}'))
+        continue
+    for _pos, _mode, _pre, _post in [('declaration value', 'sheet', 'a{b:', '}'), ('style attribute value', 'style', 'b:', ''), ('known property', 'style', 'width:', ''),
+                                     ('@variables value', 'sheet', '@variables {x:', '}'), ('@media feature', 'sheet', '@media all and (min-width:', '){a{b:c}}'), ('top level', 'sheet', '', '')]:
+        TOKEN_WIDTH[f'number run: {_tname}, {_pos}'] = (_mode, (lambda n, f=_fmt, a=_pre, z=_post: a + f.replace('{d}', '1' * n).replace('{z}', '0' * n) + z))
+TOKEN_SIZES = (4, 8, 16, 32, 64, 128, 256, 512, 1024, 2048, 4096, 8192)   # thorough: every size is twice its predecessor
+TOKEN_SIZES_QUICK = (8, 16, 32, 64, 256, 512, 4096, 8192)                 # quick: the pairs 8-16-32-64, 256-512, 4096-8192
 DEPTHS = (5, 10, 20, 25, 50, 100)          # pairs (d, 2d): 5-10, 10-20, 25-50, 50-100
 WIDTHS = (50, 100, 200, 400)               # pairs (n, 2n)
 RATIO_LIMIT = 20.0                         # t(2x)/t(x) allowed: 2^3 (cubic) with a 2.5 x allowance for scheduling noise
 TIME_FLOOR = 0.008                         # s: the CPU clock ticks in 4 ms steps here; times below the floor are raised to it
 
 
+FAMILIES = {'nesting': NESTING, 'width': WIDTH, 'token': TOKEN_WIDTH}
+
+
+def _timed(mode, text, budget):
+    t0 = time.process_time()
+    fail, sig, tp = run_case(mode, text, timeout=budget)
+    return fail, time.process_time() - t0
+
+
 def _sweep_task(args):
-    """one family: ascending sizes, whole contract per size; stops at the first size that misses the time bound"""
+    """one family: ascending sizes, whole contract per size; stops at the first size that misses the time bound.
+    Each size is measured once; a doubling ratio over the limit is re-measured (minimum of two) before it counts."""
     kind, name, sizes, budget = args
-    mode, gen = (NESTING if kind == 'nesting' else WIDTH)[name]
+    mode, gen = FAMILIES[kind][name]
     rows = []
     fails = []
     times = {}
     for d in sizes:
-        text = gen(d)
-        best = None
-        fail = None
-        for rep in range(2):
-            t0 = time.process_time()
-            fail, sig, tp = run_case(mode, text, timeout=budget)
-            dt = time.process_time() - t0
-            best = dt if best is None else min(best, dt)
-            if fail is not None or dt > 0.5:
-                break
+        fail, best = _timed(mode, gen(d), budget)
         times[d] = best
         rows.append((d, round(best, 4)))
         if fail is not None:
@@ -538,6 +583,12 @@ def _sweep_task(args):
         if d % 2 == 0 and d // 2 in times:
             r = max(best, TIME_FLOOR) / max(times[d // 2], TIME_FLOOR)
             if r > RATIO_LIMIT:
+                f2, again = _timed(mode, gen(d), budget)
+                f1, half = _timed(mode, gen(d // 2), budget)
+                best, times[d // 2] = min(best, again), max(min(times[d // 2], half), 0.0)
+                times[d] = best
+                r = max(best, TIME_FLOOR) / max(times[d // 2], TIME_FLOOR)
+            if r > RATIO_LIMIT:
                 fails.append((d, {'stage': 'time', 'site': ('SuperPolynomial', 'time', 'doubling'),
                                   'msg': f'{times[d // 2] * 1000:.1f} ms at size {d // 2}, {best * 1000:.1f} ms at size {d}: ratio {r:.0f} > {RATIO_LIMIT:.0f}'}))
                 break
@@ -547,7 +598,7 @@ def _sweep_task(args):
 def sweeps(ctx):
     index = _known_index(ctx)
     budget = 4.0 if ctx.tier == 'quick' else 20.0
-    tasks = [('nesting', name, DEPTHS, budget) for name in NESTING] + [('width', name, WIDTHS, budget) for name in WIDTH]
+    tasks = [('nesting', name, DEPTHS, budget) for name in NESTING] + [('width', name, WIDTHS, budget) for name in WIDTH] + [('token', name, TOKEN_SIZES_QUICK if ctx.tier == 'quick' else TOKEN_SIZES, budget) for name in TOKEN_WIDTH]
     n = 0
     agg = {}
     worst = (0.0, None)
@@ -556,16 +607,16 @@ def sweeps(ctx):
     with _pool(ctx) as pool:
         for kind, name, mode, rows, fails in pool.imap_unordered(_sweep_task, tasks, chunksize=1):
             n += len(rows)
-            gen = (NESTING if kind == 'nesting' else WIDTH)[name][1]
+            gen = FAMILIES[kind][name][1]
             for d, t in rows:
                 done.add((name, d))
-                if d in (100, 400) and t > worst[0]:
+                if d in (100, 400, 8192) and t > worst[0]:
                     worst = (t, name)
             for d, fail in fails:
                 # time failures are keyed by the family (the generator is the "site"); exceptions by their crash site
                 if fail['site'][0] in ('Timeout', 'SuperPolynomial'):
                     fail = dict(fail, site=('TimeBound', kind, name), stage='time')
-                _note(agg, fail, {'text': gen(d) if d <= 12 else f'<{name} at size {d}>', 'mode': mode, 'family': name, 'size': d})
+                _note(agg, fail, {'text': gen(d) if d <= 16 else f'<{name} at size {d}>', 'mode': mode, 'family': name, 'size': d})
     _report(ctx, 'nesting / width sweeps', agg, index)
     ctx.bounded.append({'name': 'nesting and width sweeps', 'evaluations': n, 'distinct_nontrivial': len(done),
                         'rule': f'{len(NESTING)} nesting families (each of ( [ {{ and functions in selector, rule, at-rule prelude, value, property-name and priority position, balanced and cut off) at depths {DEPTHS} '
